@@ -66,7 +66,13 @@ void h_md_variant(void) {
   else if (kind == 3) { VASSERT((o.f2 == 3 && o.f7 == bits) || (o.f2 == 4 && (int64_t)bits >= 0 && o.f7 == bits), "integer: exact value and sign for every width"); if (payload == 8) VWITNESS("i64"); }
   else if (kind == 4) { VASSERT((o.f2 == 4 || o.f2 == 3) && o.f7 == bits && (o.f2 == 4 || (int64_t)bits >= 0), "unsigned integer: exact value for every width"); if (payload == 8) VWITNESS("u64"); }
   else if (kind == 5) { float f = vin_unbits32((uint32_t)be(in + 1, 4)); double d = (double)f; double got; memcpy(&got, &o.f7, 8); VASSERT(o.f2 == 5 && ((f != f) ? (got != got) : vbits64(got) == vbits64(d)), "float32: exact value"); VWITNESS("f32"); }
-  else if (kind == 6) { uint64_t b = be(in + 1, 8); double d; memcpy(&d, &b, 8); double got; memcpy(&got, &o.f7, 8); VASSERT(o.f2 == 5 && ((d != d) ? (got != got) : vbits64(got) == b), "float64: exact value"); VWITNESS("f64"); }
+  else if (kind == 6) { uint64_t b = be(in + 1, 8); double d; memcpy(&d, &b, 8); double got; memcpy(&got, &o.f7, 8);
+#ifdef NODOUBLE   /* ARDUINOJSON_USE_DOUBLE=0: the value is ROUNDED (to nearest) to float */
+    { double e = (double)(float)d; VASSERT(o.f2 == 5 && ((d != d) ? (got != got) : vbits64(got) == vbits64(e)), "float64 with doubles disabled: the nearest float"); }
+#else
+    VASSERT(o.f2 == 5 && ((d != d) ? (got != got) : vbits64(got) == b), "float64: exact value");
+#endif
+ VWITNESS("f64"); }
 }
 
 /* ---- readKey: only the str formats are keys; length decoding for fixstr / str8 / str16 / str32 */
